@@ -124,7 +124,13 @@ func genProtocol(p *pworld, run func(string) string, r *rng.R, maxOps int) {
 				fmt.Sscanf(strings.ReplaceAll(f[d], ":", " "), "%d %d", &ms, &l)
 				run(fmt.Sprintf("setts %d %d %d", d, ms+int64(r.Range(1, 50000)), r.Intn(1000)))
 			}
-			run(fmt.Sprintf("burst %d %d %d %d", r.Range(2, 6), r.Range(0, 4), []int{1, 1, 3, 10}[r.Intn(4)], r.Intn(1000)))
+			if r.Bool(1, 3) {
+				// through the real pd client: concurrent callers are batched by the client and the batch
+				// is split by its own addLogical arithmetic
+				run(fmt.Sprintf("burst %d %d 1 %d cli", r.Range(2, 8), r.Range(0, 5), r.Intn(1000)))
+			} else {
+				run(fmt.Sprintf("burst %d %d %d %d", r.Range(2, 6), r.Range(0, 4), []int{1, 1, 3, 10}[r.Intn(4)], r.Intn(1000)))
+			}
 			run("pinit")
 		}
 	}
